@@ -3,7 +3,7 @@
 //!
 //! The server binaries are built from the working tree (`A2KIT_REPO`, default `/repo`) with
 //! `--cfg a2kit_verif` into `./c18-target` and driven over stdio with LSP.  If the verification
-//! hooks are compiled in (the server writes `A2KIT_VERIF_LOG`), every case additionally yields an
+//! hooks are compiled in (the server writes `A2KIT_VERIF_LOG`: event lines on its stderr), every case additionally yields an
 //! event trace that is replayed through the Lean model (`c18 trace …`); otherwise the family runs in
 //! black-box mode (oracles on the LSP traffic only) and says so in the `D` counters.
 //!
@@ -88,7 +88,7 @@ impl Client {
                 while let Ok(n) = rd.read_line(&mut line) {
                     if n == 0 { break; }
                     let mut g = errs.lock().unwrap();
-                    if g.len() < 20000 { g.push_str(&line); }
+                    if g.len() < 8_000_000 { g.push_str(&line); }
                     line.clear();
                 }
             });
@@ -483,17 +483,20 @@ struct Obs {
     fresh: BTreeMap<usize, (i64, usize, Option<String>)>,
 }
 
-fn read_log(path: &str) -> Vec<LogLine> {
+/// the hook event lines on the server's standard error
+fn read_log(stderr: &str) -> Vec<LogLine> {
     let mut out = Vec::new();
-    if let Ok(s) = std::fs::read_to_string(path) {
-        for l in s.lines() {
-            let p: Vec<&str> = l.split('\t').collect();
-            if p.len() == 4 {
-                out.push(LogLine { tag: p[0].to_string(), id: p[1].parse().unwrap_or(usize::MAX), uri: p[2].to_string(), ver: p[3].parse().unwrap_or(-1) });
-            }
+    for l in stderr.lines() {
+        let p: Vec<&str> = l.split('\t').collect();
+        if p.len() == 5 && p[0] == "a2kit-verif" {
+            out.push(LogLine { tag: p[1].to_string(), id: p[2].parse().unwrap_or(usize::MAX), uri: p[3].to_string(), ver: p[4].parse().unwrap_or(-1) });
         }
     }
     out
+}
+
+fn without_log(stderr: &str) -> String {
+    stderr.lines().filter(|l| !l.starts_with("a2kit-verif\t")).collect::<Vec<_>>().join("\n")
 }
 
 fn cfg_value(live: bool) -> json::JsonValue {
@@ -501,11 +504,10 @@ fn cfg_value(live: bool) -> json::JsonValue {
 }
 
 fn run_case(bin_dir: &str, case: &Case, tag: &str) -> Obs {
-    let log_path = format!("c18-log-{}-{}-{}.txt", tag, case.lang.name(), case.idx);
-    let _ = std::fs::remove_file(&log_path);
+    let _ = tag;
     let mut obs = Obs { started: false, hooks: false, alive_end: false, log: vec![], pubs: vec![], req_sent: vec![], req_answered: vec![],
         probe_published: false, probe_request_answered: false, stderr: String::new(), live_at_end: true, fresh: BTreeMap::new() };
-    let envs = vec![("A2KIT_VERIF_LOG".to_string(), log_path.clone()), ("A2KIT_VERIF_SCHED".to_string(), case.sched_string())];
+    let envs = vec![("A2KIT_VERIF_LOG".to_string(), "stderr".to_string()), ("A2KIT_VERIF_SCHED".to_string(), case.sched_string())];
     let mut c = match Client::spawn(&format!("{}/{}", bin_dir, case.lang.exe()), &envs) { Some(c) => c, None => return obs };
     if !c.initialize() { obs.stderr = c.stderr_text(); c.shutdown(); return obs; }
     obs.started = true;
@@ -539,7 +541,7 @@ fn run_case(bin_dir: &str, case: &Case, tag: &str) -> Obs {
     let t = Instant::now();
     loop {
         std::thread::sleep(Duration::from_millis(40));
-        let log = read_log(&log_path);
+        let log = read_log(&c.stderr_text());
         if !log.is_empty() {
             let launched = log.iter().filter(|l| l.tag.starts_with("launch")).count();
             let harvested = log.iter().filter(|l| l.tag == "harvest").count();
@@ -561,7 +563,7 @@ fn run_case(bin_dir: &str, case: &Case, tag: &str) -> Obs {
     }
     // the `harvest` line precedes the `publish` line, which precedes the bytes on the wire
     std::thread::sleep(Duration::from_millis(60));
-    obs.log = read_log(&log_path);
+    obs.log = read_log(&c.stderr_text());
     obs.hooks = !obs.log.is_empty();
     let want = obs.log.iter().filter(|l| l.tag == "publish").count();
     let t1 = Instant::now();
@@ -576,9 +578,9 @@ fn run_case(bin_dir: &str, case: &Case, tag: &str) -> Obs {
     obs.probe_published = c.wait_for(|ms| ms.iter().any(|(_, m)| m["method"] == "textDocument/publishDiagnostics" && m["params"]["uri"] == probe_uri.as_str()),
         if case.poison { 1200 } else { 4000 });
     obs.alive_end = c.alive();
-    obs.stderr = c.stderr_text();
+    obs.stderr = without_log(&c.stderr_text());
+    if std::env::var("C18_KEEP_LOGS").is_ok() { let _ = std::fs::write(format!("c18-log-{}-{}.txt", case.lang.name(), case.idx), c.stderr_text()); }
     c.shutdown();
-    if std::env::var("C18_KEEP_LOGS").is_err() { let _ = std::fs::remove_file(&log_path); }
     if !case.poison {
         for (d, ver) in &last_sent {
             let t = last_text[d];
